@@ -657,6 +657,45 @@ int main(int argc, char **argv)
 		if (vh_opt.proc == 0)
 			helpers(&z, "zeroed-structure");
 	}
+	if (fn == fuzz_case && vh_opt.only_case < 0) {
+		/* structures with every field at its extremes, reached through the decoder: a 44-byte PCM-shaped header
+		 * whose fields take all combinations of boundary values; then the three helpers */
+		static const uint32_t v32[] = { 0, 1, 0x7fffffffu, 0x80000000u, 0xc4653600u, 0xffffffffu, 999999999u, 1000000000u };
+		static const uint32_t v16[] = { 0, 1, 2, 9999, 10000, 0x7fff, 0x8000, 0xffff };
+		static const uint32_t fmts16[] = { 0, 1, 3, 0xfffe, 0xffff };
+		static const uint32_t bits16[] = { 0, 8, 16, 32, 0xffff };
+		uint64_t combo = 0;
+		vh_case_replay("--extra fuzz");
+		for (unsigned a = 0; a < 8; a++)
+			for (unsigned b = 0; b < 8; b++)
+				for (unsigned cc = 0; cc < 8; cc++)
+					for (unsigned d = 0; d < 8; d++)
+						for (unsigned e = 0; e < 5; e++)
+							for (unsigned f = 0; f < 5; f++, combo++) {
+								if ((combo % (uint64_t)vh_opt.nproc) != (uint64_t)vh_opt.proc)
+									continue;
+								static hdr_t h;
+								memset(&h, 0, sizeof(h));
+								put(&h, "RIFF", 4);
+								put32(&h, 0xffffffffu);
+								put(&h, "WAVE", 4);
+								put(&h, "fmt ", 4);
+								put32(&h, 16);
+								put16(&h, fmts16[e]);
+								put16(&h, v16[d]);   /* channels */
+								put32(&h, v32[b]);   /* sample rate */
+								put32(&h, v32[(a + b) % 8]); /* byte rate */
+								put16(&h, v16[cc]);  /* block align */
+								put16(&h, bits16[f]);
+								put(&h, "data", 4);
+								put32(&h, v32[a]);   /* data size */
+								vh_case_desc("extreme fields: data=0x%x rate=0x%x align=%u channels=%u format=0x%x bits=%u", v32[a], v32[b],
+									     v16[cc], v16[d], fmts16[e], bits16[f]);
+								int ret;
+								decode_and_judge(h.b, h.n, "extreme-fields", &ret);
+								VH_COUNT("extreme_field_structures");
+							}
+	}
 	for (long long c = vh_opt.proc; c < n; c += vh_opt.nproc) {
 		if (vh_opt.only_case >= 0 && c != vh_opt.only_case)
 			continue;
